@@ -25,7 +25,7 @@ QUICK_UNITS = [
     "src/Estimation/CalcKriging.cpp", "src/Estimation/CalcKrigingFactors.cpp",
     "src/Estimation/CalcGlobal.cpp", "src/Estimation/CalcImage.cpp", "src/Core/krige.cpp",
     "src/Variogram/Vario.cpp", "src/Variogram/AVario.cpp",
-    "src/Neigh/ANeigh.cpp", "src/Basic/Rotation.cpp", "src/LinearOp/IProjMatrix.cpp", "src/Basic/Grid.cpp",
+    "src/Neigh/ANeigh.cpp", "src/Neigh/NeighBench.cpp", "src/Neigh/NeighMoving.cpp", "src/Neigh/NeighCell.cpp", "src/Basic/Rotation.cpp", "src/LinearOp/IProjMatrix.cpp", "src/Basic/Grid.cpp",
     "src/Anamorphosis/AnamEmpirical.cpp", "src/Basic/Indirection.cpp", "src/Skin/Skin.cpp",
 ]
 
@@ -906,6 +906,172 @@ def r10_6(prog, chk):
     chk.floor("R10.6", n, 1)
 
 
+def r10_8(prog, chk, classes=("Vario",)):
+    """R10.8 - a calculation entry point starts from scratch.  Members that the methods of the class ACCUMULATE into
+    (`m[..] += x`) must be reset (fill / assign / clear / whole assignment; a plain resize() keeps the old content) on every
+    path from a public entry point to the first accumulation: otherwise a second calculation on the same object adds to the
+    first one (the result depends on what was called before)."""
+    n = 0
+    for K in classes:
+        meths = [f for f in prog.funcs if f.cls == K and f.body is not None]
+        if not meths:
+            raise facts.AnalysisBroken("class %s not analysed" % K)
+        byname = {}
+        for f in meths:
+            byname.setdefault(f.name, []).append(f)
+
+        def root_field(e):
+            while e is not None and (e["k"] in ("Index", "Cast") or (e["k"] == "OpCall" and e.get("op") in ("[]", "*"))):
+                e = e["c"][0]
+            if e is not None and e["k"] == "MemberExpr" and e.get("mk") == "field" and (not e.get("c") or e["c"][0] is None or e["c"][0]["k"] == "This"):
+                return e["n"]
+            return None
+        acc = {}
+        for f in meths:
+            for x in f.walk():
+                if x["k"] in ("Assign", "OpCall") and x.get("op") == "+=" and x.get("c"):
+                    fl = root_field(x["c"][0])
+                    if fl:
+                        acc.setdefault(fl, {}).setdefault(f.usr, []).append(x)
+        # the accumulators of a calculation: containers (subscripted) that are also read back by getters
+        acc = {fl: v for fl, v in acc.items() if any(x["c"][0]["k"] in ("Index", "OpCall") for xs in v.values() for x in xs)}
+        # member-pointer targets (evaluation callbacks)
+        pm = set()
+        for f in meths:
+            for x in f.walk():
+                if x["k"] == "UnOp" and x.get("op") == "&" and x.get("c") and x["c"][0] is not None and x["c"][0]["k"] == "DeclRefExpr" and (x["c"][0].get("q") or "") in byname:
+                    pm.add(x["c"][0]["q"])
+
+        def this_callees(f):
+            for c in f.calls():
+                if c["k"] == "MCall" and c.get("callee") in byname and (call_obj(c) is None or call_obj(c)["k"] == "This"):
+                    for g in byname[c["callee"]]:
+                        yield c, g
+                elif c["k"] == "PMCall":
+                    for q in sorted(pm):
+                        for g in byname[q]:
+                            yield c, g
+        for fl in sorted(acc):
+            reach = set(acc[fl])
+            changed = True
+            while changed:
+                changed = False
+                for f in meths:
+                    if f.usr not in reach and any(g.usr in reach for _, g in this_callees(f)):
+                        reach.add(f.usr)
+                        changed = True
+
+            def is_reset_stmt(x, fl=fl):
+                if x["k"] == "MCall" and (x.get("callee") or "").split("::")[-1] in ("fill", "assign", "clear") and root_field(call_obj(x)) == fl:
+                    return True
+                if x["k"] in ("Assign", "OpCall") and x.get("op") == "=" and x.get("c") and x["c"][0] is not None and x["c"][0]["k"] == "MemberExpr" and root_field(x["c"][0]) == fl:
+                    return True
+                return False
+            # methods that reset on every path to a successful return
+            resetters = set()
+
+            def success(r):
+                v = (r.get("c") or [None])[0]
+                return v is None or not (v["k"] == "Int" and v["v"] != 0) and not (v["k"] == "Bool" and v["v"] is False)
+            changed = True
+            while changed:
+                changed = False
+                for f in meths:
+                    if f.usr in resetters or f.cfg is None:
+                        continue
+                    if not any(is_reset_stmt(x) for x in f.walk()) and not any(g.usr in resetters for _, g in this_callees(f)):
+                        continue
+                    g_ = CFG(f)
+                    rcalls = {c["i"] for c, g in this_callees(f) if g.usr in resetters}
+                    bar = lambda x: is_reset_stmt(x) or x["i"] in rcalls
+                    # a counted loop whose body resets the member element by element is a reset (zero trips = nothing to reset)
+                    loops_with_reset = {l["i"] for l in f.walk() if l["k"] == "For" and any(bar(y) for y in walk(l))}
+                    eo = lambda blk, k, s_: not (blk.get("t") == "ForStmt" and blk.get("ts") in loops_with_reset and k == 1)
+                    w = g_.search(g_.entry_pos(), is_target=lambda x: x["k"] == "Return" and success(x), is_barrier=bar, edge_ok=eo)
+                    w2 = g_.search(g_.entry_pos(), to_exit=True, is_barrier=lambda x: bar(x) or x["k"] == "Return", edge_ok=eo) if f.ret.startswith("void") else None
+                    if w is None and w2 is None:
+                        resetters.add(f.usr)
+                        changed = True
+            pub = {m["usr"] for m in prog.classes.get(K, {}).get("methods", []) if m.get("access") == "public"}
+            for f in sorted(meths, key=lambda x: x.line):
+                if f.usr not in reach or f.usr not in pub or f.cfg is None or f.kind != "method" or f.usr in acc[fl] or f.short.startswith("_"):
+                    continue
+                g_ = CFG(f)
+                accs = {c["i"] for c, g in this_callees(f) if g.usr in reach}
+                rcalls = {c["i"] for c, g in this_callees(f) if g.usr in resetters}
+                if not accs:
+                    continue
+                n += 1
+                chk.analysed(f)
+                w = g_.search(g_.entry_pos(), is_target=lambda x: x["i"] in accs and x["i"] not in rcalls,
+                              is_barrier=lambda x: is_reset_stmt(x) or x["i"] in rcalls)
+                ok = w is None
+                chk.ob("R10.8", "%s: %s is reset on every path before the calculation accumulates into it" % (f.sig(), fl), f.loc(), ok,
+                       detail=None if ok else "a second call on the same object adds its pairs / sums to those of the first call (resize() keeps the old "
+                       "content): the result depends on what was computed before", key="R10.8|%s/%d|%s" % (f.name, len(f.params), fl),
+                       path=None if ok else g_.describe(w))
+    chk.floor("R10.8", n, 3)
+
+
+def r10_9(prog, chk):
+    """R10.9 - polarity of the neighbourhood memo.  ANeigh::select() reuses the memorised neighbourhood of the previous
+    target exactly when hasChanged() answers false.  An override that answers with a SAMENESS predicate (a function that
+    returns false on a `!=` / true at the end: "same bench", "same target") must negate it: un-negated, the neighbourhood
+    of a target is the one of the previous target precisely when the two differ."""
+    def sameness(g):
+        """True when g returns false only under an inequality test and true otherwise"""
+        if g.body is None or not g.ret.startswith("bool"):
+            return False
+        rets = [x for x in g.walk() if x["k"] == "Return" and x.get("c") and x["c"][0] is not None]
+        if not rets or any(r["c"][0]["k"] != "Bool" for r in rets):
+            return False
+        falses = [r for r in rets if r["c"][0]["v"] is False]
+        trues = [r for r in rets if r["c"][0]["v"] is True]
+        if not falses or not trues:
+            return False
+        for r in falses:
+            ok = False
+            child = r
+            for a in g.ancestors(r):
+                if a["k"] == "If":
+                    c = a["c"][0]
+                    while c is not None and c["k"] == "Cast":
+                        c = c["c"][0]
+                    if len(a["c"]) >= 2 and (a["c"][1] is child) and c is not None and c["k"] in ("BinOp", "OpCall") and c.get("op") == "!=":
+                        ok = True
+                    break
+                child = a
+            if not ok:
+                return False
+        return True
+    n = 0
+    for f in sorted(prog.funcs, key=lambda x: (x.file, x.line)):
+        if f.short != "hasChanged" or f.body is None or not f.cls or not (f.cls == "ANeigh" or "ANeigh" in prog.bases(f.cls)):
+            continue
+        for r in f.walk():
+            if r["k"] != "Return" or not r.get("c") or r["c"][0] is None:
+                continue
+            e = r["c"][0]
+            neg = False
+            while e is not None and (e["k"] == "Cast" or (e["k"] == "UnOp" and e.get("op") == "!")):
+                if e["k"] == "UnOp":
+                    neg = not neg
+                e = e["c"][0]
+            if e is None or e["k"] != "MCall" or not e.get("callee"):
+                continue
+            impl = [g for g in prog.fns(e["callee"]) if g.body is not None]
+            if not impl or not all(sameness(g) for g in impl):
+                continue
+            n += 1
+            chk.analysed(f)
+            chk.ob("R10.9", "%s answers 'changed' with the negation of the sameness test %s" % (f.name, e["callee"]), f.loc(r), neg,
+                   detail=None if neg else "%s returns true when the target is in the SAME group as the previous one: hasChanged() then makes select() "
+                   "recompute when nothing changed and REUSE the memorised neighbourhood when the group changed; the neighbourhood of a target "
+                   "depends on which target was asked before" % e["callee"],
+                   key="R10.9|%s|%s" % (f.name, e["callee"].split("::")[-1]))
+    chk.floor("R10.9", n, 1)
+
+
 # R10.7: members on which the two copy operations legitimately differ (one line of reason each, confirmed by reading)
 R107_ACCEPTED = {
     ("ACov", "_isOptimPreProcessed"): "flag of the projected-point cache, true only between optimizationPreProcess and optimizationPostProcess, "
@@ -973,6 +1139,8 @@ def main(tier):
     r10_2d(prog, chk)
     r10_5(prog, chk)
     r10_6(prog, chk)
+    r10_8(prog, chk)
+    r10_9(prog, chk)
     r10_7(prog, chk, tier, units)
     return chk.finish()
 
